@@ -87,6 +87,245 @@ type op struct {
 	// the chain is frozen with Session(&gorm.Session{}) and executed twice (first into a fresh
 	// destination of the same shape that is thrown away); the second execution is compared
 	twice bool
+	// the chain is split: its first sib.cut steps are put on ONE handle frozen with
+	// Session(&gorm.Session{}), from which two chains are derived - the rest of this chain (compared)
+	// and a sibling that adds joins / preloads / conditions of its own (see sibling)
+	sib *sibling
+}
+
+// sibling describes a second query derived from the same frozen handle as the compared one. What
+// it asks for must not show in the compared query (and the other way round), whichever of the two
+// is derived first and whether or not the sibling is executed before the compared one.
+type sibling struct {
+	cut   int  // number of leading chain steps carried by the shared handle
+	first bool // the sibling is derived BEFORE the compared chain
+	exec  bool // the sibling is executed (result thrown away) before the compared chain
+	// what the sibling adds to the shared handle, in this order
+	joins    []dir
+	preloads []dir
+	filter   []int64
+	unscoped bool
+	// Association().Find: base := db.Model(parents).Session(..); the sibling is base.Association(relName)
+	// (executed with cond when exec is set)
+	relName string
+	cond    *cond
+}
+
+// step is one call of a query chain.
+type step struct {
+	kind  string // unscoped | join | all | preload | dup | filter
+	desc  string
+	apply func(*gorm.DB) *gorm.DB
+}
+
+func joinStep(d dir) step {
+	fn := "Joins"
+	if d.inner {
+		fn = "InnerJoins"
+	}
+	desc := fmt.Sprintf(".%s(%q", fn, d.path)
+	if d.c != nil {
+		desc += ", " + d.c.String()
+	}
+	return step{kind: "join", desc: desc + ")", apply: func(db *gorm.DB) *gorm.DB {
+		if d.inner {
+			return db.InnerJoins(d.path, d.c.args()...)
+		}
+		return db.Joins(d.path, d.c.args()...)
+	}}
+}
+
+func preloadStep(d dir) step {
+	desc := fmt.Sprintf(".Preload(%q", d.path)
+	if d.c != nil {
+		desc += ", " + d.c.String()
+	}
+	return step{kind: "preload", desc: desc + ")", apply: func(db *gorm.DB) *gorm.DB { return db.Preload(d.path, d.c.args()...) }}
+}
+
+func filterStep(table string, us []int64) step {
+	return step{kind: "filter", desc: fmt.Sprintf(".Where(%s.u IN %v)", table, us), apply: func(db *gorm.DB) *gorm.DB {
+		vals := make([]interface{}, len(us))
+		for i, u := range us {
+			vals[i] = u
+		}
+		return db.Where(clause.IN{Column: clause.Column{Table: clause.CurrentTable, Name: "u"}, Values: vals})
+	}}
+}
+
+func unscopedStep() step {
+	return step{kind: "unscoped", desc: ".Unscoped()", apply: func(db *gorm.DB) *gorm.DB { return db.Unscoped() }}
+}
+
+// steps lists the calls of the chain of a parent query in the order they are made.
+func (o *op) steps() []step {
+	var out []step
+	if o.unscoped && !o.unscopedLast {
+		out = append(out, unscopedStep())
+	}
+	for _, d := range o.joins {
+		out = append(out, joinStep(d))
+	}
+	if o.all {
+		desc := ".Preload(clause.Associations"
+		if o.allCond != nil {
+			desc += ", " + o.allCond.String()
+		}
+		c := o.allCond
+		out = append(out, step{kind: "all", desc: desc + ")", apply: func(db *gorm.DB) *gorm.DB { return db.Preload(clause.Associations, c.args()...) }})
+	}
+	for _, d := range o.preloads {
+		out = append(out, preloadStep(d))
+	}
+	if o.dup {
+		out = append(out, step{kind: "dup", desc: fmt.Sprintf(`.Joins("JOIN %s ON 1 = 1")`, dupTable), apply: func(db *gorm.DB) *gorm.DB { return db.Joins("JOIN " + dupTable + " ON 1 = 1") }})
+	}
+	if o.filter != nil {
+		out = append(out, filterStep(o.root.table, o.filter))
+	}
+	if o.unscoped && o.unscopedLast {
+		out = append(out, unscopedStep())
+	}
+	return out
+}
+
+// steps lists what the sibling adds to the shared handle.
+func (sb *sibling) steps(root *model) []step {
+	var out []step
+	for _, d := range sb.joins {
+		out = append(out, joinStep(d))
+	}
+	for _, d := range sb.preloads {
+		out = append(out, preloadStep(d))
+	}
+	if sb.filter != nil {
+		out = append(out, filterStep(root.table, sb.filter))
+	}
+	if sb.unscoped {
+		out = append(out, unscopedStep())
+	}
+	return out
+}
+
+func descOf(steps []step) string {
+	var sb strings.Builder
+	for _, s := range steps {
+		sb.WriteString(s.desc)
+	}
+	return sb.String()
+}
+
+func applyAll(db *gorm.DB, steps []step) *gorm.DB {
+	for _, s := range steps {
+		db = s.apply(db)
+	}
+	return db
+}
+
+// genSibling splits the chain of o and draws a sibling query for the shared handle.
+func genSibling(r *core.Rand, ds *dataset, o *op) *sibling {
+	sb := &sibling{first: r.Bool(), exec: r.Bool()}
+	if o.kind == "assoc-find" {
+		sb.relName = core.Pick(r, o.root.rels).name
+		if r.Bool() {
+			sb.relName = o.relName
+		}
+		if r.Bool() || (sb.relName == o.relName && o.findCond == nil) {
+			sb.cond = genCond(r, "args", "map")
+		}
+		return sb
+	}
+	steps := o.steps()
+	sb.cut = r.Range(0, len(steps))
+	firstJoin := 0
+	if len(steps) > 0 && steps[0].kind == "unscoped" {
+		firstJoin = 1
+	}
+	if len(o.joins) >= 2 && r.Chance(3, 4) {
+		// the shared handle carries some of the joins, the compared chain adds the others (half of the
+		// time just the last one: a common handle and one more relation per query is the usual pattern)
+		sb.cut = firstJoin + r.Range(1, len(o.joins)-1)
+		if r.Bool() {
+			sb.cut = firstJoin + len(o.joins) - 1
+		}
+	}
+	base := map[string]bool{}
+	var own []dir
+	for i, d := range o.joins {
+		if firstJoin+i < sb.cut {
+			base[d.path] = true
+		} else {
+			own = append(own, d)
+		}
+	}
+	inner := r.Chance(1, 3)
+	if len(o.joins) > 0 || r.Chance(1, 4) {
+		for i, n := 0, r.Range(1, 2); i < n; i++ {
+			var d dir
+			if d = core.Pick(r, append([]dir{{path: "."}}, own...)); !strings.Contains(d.path, ".") && r.Bool() {
+				// a relation the compared chain joins itself, under another condition (or none)
+				d.c = nil
+				if r.Chance(2, 3) {
+					d.c = genCond(r, "join-on")
+				}
+			} else {
+				d = dir{path: walk(r, o.root, core.Pick(r, []int{1, 1, 2, 3}), true)}
+				if !strings.Contains(d.path, ".") && r.Chance(1, 3) {
+					d.c = genCond(r, "join-on")
+				}
+			}
+			d.inner = inner
+			if d.path != "" && !base[d.path] {
+				sb.joins = append(sb.joins, d)
+			}
+		}
+	}
+	for i, n := 0, r.Intn(3); i < n; i++ {
+		var d dir
+		if len(o.preloads) > 0 && r.Bool() {
+			d = dir{path: core.Pick(r, o.preloads).path}
+		} else {
+			d = dir{path: walk(r, o.root, r.Range(1, 2), false)}
+		}
+		if r.Chance(2, 3) {
+			d.c = genCond(r, "args", "map", "scope", "scope-unscoped")
+		}
+		if d.path != "" {
+			sb.preloads = append(sb.preloads, d)
+		}
+	}
+	sb.unscoped = r.Chance(1, 6)
+	if r.Bool() || (len(sb.joins) == 0 && len(sb.preloads) == 0 && !sb.unscoped) {
+		sb.filter = []int64{}
+		for _, rw := range ds.rows[o.root] {
+			if r.Bool() {
+				sb.filter = append(sb.filter, rw.u)
+			}
+		}
+	}
+	return sb
+}
+
+// baseJoins is the number of association joins carried by the shared handle when BOTH derived
+// chains add a join of their own (-1 otherwise).
+func (o *op) baseJoins() int {
+	if o.sib == nil || len(o.sib.joins) == 0 {
+		return -1
+	}
+	n, own := 0, 0
+	for i, s := range o.steps() {
+		if s.kind == "join" {
+			if i < o.sib.cut {
+				n++
+			} else {
+				own++
+			}
+		}
+	}
+	if own == 0 {
+		return -1
+	}
+	return n
 }
 
 // staleRec is one record held by a reused destination: the scalar columns of row rw and, per
@@ -327,6 +566,9 @@ func genOp(r *core.Rand, ds *dataset) *op {
 					o.pre = append(o.pre, staleRec{rw: core.Pick(r, tgt)})
 				}
 			}
+			if r.Chance(1, 4) {
+				o.sib = genSibling(r, ds, o)
+			}
 			return o
 		}
 	}
@@ -396,12 +638,16 @@ func genOp(r *core.Rand, ds *dataset) *op {
 		}
 		o.dup = o.dest != "struct" && r.Chance(1, 4)
 	case "joins":
+		// 1 (half of the operations), 2, or 3-8 distinct paths (as far as the model has that many)
 		nj := 1
-		if r.Chance(1, 3) {
+		switch x := r.Intn(12); {
+		case x >= 8:
+			nj = r.Range(3, 8)
+		case x >= 6:
 			nj = 2
 		}
 		inner := r.Chance(1, 4)
-		for i := 0; i < nj; i++ {
+		for i := 0; i < nj*3 && len(o.joins) < nj; i++ {
 			p := walk(r, o.root, core.Pick(r, []int{1, 1, 2, 2, 3}), true, noJoin)
 			if p == "" {
 				continue
@@ -418,8 +664,18 @@ func genOp(r *core.Rand, ds *dataset) *op {
 			o.unscoped, o.unscopedLast = false, false
 			o.joins = []dir{{path: walk(r, o.root, 1, true), inner: inner}}
 		}
-		if len(o.joins) == 1 && !strings.Contains(o.joins[0].path, ".") && r.Chance(1, 3) {
-			o.joins[0].c = genCond(r, "join-on")
+		// ON conditions: on depth-1 joins that no other joined path runs through
+		for i, d := range o.joins {
+			if strings.Contains(d.path, ".") {
+				continue
+			}
+			free := true
+			for _, e := range o.joins {
+				free = free && !strings.HasPrefix(e.path, d.path+".")
+			}
+			if free && r.Chance(1, 3) {
+				o.joins[i].c = genCond(r, "join-on")
+			}
 		}
 		// preloads next to / below the joins
 		for i, n := 0, r.Intn(3); i < n; i++ {
@@ -456,6 +712,10 @@ func genOp(r *core.Rand, ds *dataset) *op {
 		}
 	}
 	o.twice = r.Chance(1, 5)
+	// (a handle that carries several joins is shared more often: more state to keep apart)
+	if !o.twice && (r.Chance(1, 4) || (len(o.joins) >= 3 && r.Bool())) {
+		o.sib = genSibling(r, ds, o)
+	}
 	return o
 }
 
@@ -502,6 +762,9 @@ func (o *op) desc() string {
 		}
 	}
 	if o.kind == "assoc-find" {
+		if o.sib != nil {
+			sb.WriteString("base := ")
+		}
 		sb.WriteString("db")
 		if o.unscoped && !o.unscopedLast {
 			sb.WriteString(".Unscoped()")
@@ -517,50 +780,48 @@ func (o *op) desc() string {
 		if o.unscoped && o.unscopedLast {
 			sb.WriteString(".Unscoped()")
 		}
-		fmt.Fprintf(&sb, ".Association(%q).Find(&%s", o.relName, o.dest)
+		if o.sib != nil {
+			own := fmt.Sprintf("q := base.Association(%q); ", o.relName)
+			sib := fmt.Sprintf("sib := base.Association(%q); ", o.sib.relName)
+			sb.WriteString(".Session(&gorm.Session{}); ")
+			if o.sib.first {
+				sb.WriteString(sib + own)
+			} else {
+				sb.WriteString(own + sib)
+			}
+			if o.sib.exec {
+				fmt.Fprintf(&sb, "sib.Find(&[]%s{}", o.root.rel(o.sib.relName).target.name)
+				if o.sib.cond != nil {
+					sb.WriteString(", " + o.sib.cond.String())
+				}
+				sb.WriteString("); ")
+			}
+			fmt.Fprintf(&sb, "q.Find(&%s", o.dest)
+		} else {
+			fmt.Fprintf(&sb, ".Association(%q).Find(&%s", o.relName, o.dest)
+		}
 		if o.findCond != nil {
 			sb.WriteString(", " + o.findCond.String())
 		}
 		sb.WriteString(")")
 		return sb.String()
 	}
-	sb.WriteString("db")
-	if o.unscoped && !o.unscopedLast {
-		sb.WriteString(".Unscoped()")
-	}
-	for _, d := range o.joins {
-		fn := "Joins"
-		if d.inner {
-			fn = "InnerJoins"
+	steps := o.steps()
+	if o.sib != nil {
+		own := "q := base" + descOf(steps[o.sib.cut:]) + "; "
+		sib := "sib := base" + descOf(o.sib.steps(o.root)) + "; "
+		sb.WriteString("base := db" + descOf(steps[:o.sib.cut]) + ".Session(&gorm.Session{}); ")
+		if o.sib.first {
+			sb.WriteString(sib + own)
+		} else {
+			sb.WriteString(own + sib)
 		}
-		fmt.Fprintf(&sb, ".%s(%q", fn, d.path)
-		if d.c != nil {
-			sb.WriteString(", " + d.c.String())
+		if o.sib.exec {
+			fmt.Fprintf(&sb, "sib.Find(&[]%s{}); ", o.root.name)
 		}
-		sb.WriteString(")")
-	}
-	if o.all {
-		sb.WriteString(".Preload(clause.Associations")
-		if o.allCond != nil {
-			sb.WriteString(", " + o.allCond.String())
-		}
-		sb.WriteString(")")
-	}
-	for _, d := range o.preloads {
-		fmt.Fprintf(&sb, ".Preload(%q", d.path)
-		if d.c != nil {
-			sb.WriteString(", " + d.c.String())
-		}
-		sb.WriteString(")")
-	}
-	if o.dup {
-		fmt.Fprintf(&sb, `.Joins("JOIN %s ON 1 = 1")`, dupTable)
-	}
-	if o.filter != nil {
-		fmt.Fprintf(&sb, ".Where(%s.u IN %v)", o.root.table, o.filter)
-	}
-	if o.unscoped && o.unscopedLast {
-		sb.WriteString(".Unscoped()")
+		sb.WriteString("q")
+	} else {
+		sb.WriteString("db" + descOf(steps))
 	}
 	if o.twice {
 		sb.WriteString(".Session(&gorm.Session{}) <executed twice, second result compared> ")
@@ -891,7 +1152,24 @@ func execOp(ds *dataset, o *op) *checker {
 		if o.unscoped && o.unscopedLast {
 			adb = adb.Unscoped()
 		}
-		err := adb.Association(o.relName).Find(out.Interface(), o.findCond.args()...)
+		var assoc *gorm.Association
+		if o.sib != nil {
+			base := adb.Session(&gorm.Session{})
+			var sa *gorm.Association
+			if o.sib.first {
+				sa = base.Association(o.sib.relName)
+				assoc = base.Association(o.relName)
+			} else {
+				assoc = base.Association(o.relName)
+				sa = base.Association(o.sib.relName)
+			}
+			if o.sib.exec {
+				sa.Find(reflect.New(reflect.SliceOf(o.root.rel(o.sib.relName).target.typ)).Interface(), o.sib.cond.args()...)
+			}
+		} else {
+			assoc = adb.Association(o.relName)
+		}
+		err := assoc.Find(out.Interface(), o.findCond.args()...)
 		if err != nil {
 			k.add(rl, "error: %v", err)
 			return k
@@ -947,35 +1225,21 @@ func execOp(ds *dataset, o *op) *checker {
 	}
 
 	db := root
-	if o.unscoped && !o.unscopedLast {
-		db = db.Unscoped()
-	}
-	for _, d := range o.joins {
-		switch {
-		case d.inner:
-			db = db.InnerJoins(d.path, d.c.args()...)
-		default:
-			db = db.Joins(d.path, d.c.args()...)
+	if steps := o.steps(); o.sib != nil {
+		base := applyAll(root, steps[:o.sib.cut]).Session(&gorm.Session{})
+		var sdb *gorm.DB
+		if o.sib.first {
+			sdb = applyAll(base, o.sib.steps(o.root))
+			db = applyAll(base, steps[o.sib.cut:])
+		} else {
+			db = applyAll(base, steps[o.sib.cut:])
+			sdb = applyAll(base, o.sib.steps(o.root))
 		}
-	}
-	if o.all {
-		db = db.Preload(clause.Associations, o.allCond.args()...)
-	}
-	for _, d := range o.preloads {
-		db = db.Preload(d.path, d.c.args()...)
-	}
-	if o.dup {
-		db = db.Joins("JOIN " + dupTable + " ON 1 = 1")
-	}
-	if o.filter != nil {
-		vals := make([]interface{}, len(o.filter))
-		for i, u := range o.filter {
-			vals[i] = u
+		if o.sib.exec {
+			sdb.Find(reflect.New(reflect.SliceOf(o.root.typ)).Interface())
 		}
-		db = db.Where(clause.IN{Column: clause.Column{Table: clause.CurrentTable, Name: "u"}, Values: vals})
-	}
-	if o.unscoped && o.unscopedLast {
-		db = db.Unscoped()
+	} else {
+		db = applyAll(root, steps)
 	}
 	if o.twice {
 		db = db.Session(&gorm.Session{})
@@ -1107,7 +1371,14 @@ func signature(ds *dataset, o *op, k *checker) string {
 	for _, rl := range rels {
 		hz := ds.hazards(rl)
 		if len(hz) == 0 {
-			// a mismatching relation without any known hazard: not attributable
+			// a mismatching relation without any known hazard: not attributable to key contents
+			alt := true
+			for _, r2 := range rels {
+				alt = alt && r2.alt
+			}
+			if alt {
+				return "mismatch:" + o.kind + ":non-primary-referenced-key"
+			}
 			return "mismatch:" + o.kind
 		}
 		for _, h := range hz {
@@ -1288,6 +1559,15 @@ func run(c *core.Ctx) {
 		if o.unscoped {
 			c.Inc("ops_unscoped_" + o.kind)
 		}
+		if o.sib != nil {
+			c.Inc("ops_with_sibling_on_shared_session_handle_" + o.kind)
+			if n := o.baseJoins(); n >= 0 {
+				c.Inc(fmt.Sprintf("sibling_both_add_a_join_to_shared_handle_with_%d_joins", n))
+			}
+		}
+		if len(o.joins) > 0 {
+			c.Inc(fmt.Sprintf("ops_with_%d_association_joins", len(o.joins)))
+		}
 		for _, d := range o.preloads {
 			if d.c.lifts() {
 				c.Inc("preloads_with_unscoped_scope_function")
@@ -1331,6 +1611,15 @@ func run(c *core.Ctx) {
 					attributed = true
 					sig = "second-execution-of-session-handle:" + o.kind
 					detail["counterfactual"] = "the first execution of the same chain agrees with the reference join: " + once.desc()
+				}
+			}
+			if !attributed && o.sib != nil {
+				alone := *o
+				alone.sib = nil
+				if kf := safeExec(ds, &alone); len(kf.problems) == 0 {
+					attributed = true
+					sig = "sibling-on-shared-session-handle:" + mechanisms(o, k)
+					detail["counterfactual"] = "the same chain built in one go, without the sibling query derived from the shared handle, agrees with the reference join: " + alone.desc()
 				}
 			}
 			if !attributed && o.unscoped {
@@ -1389,7 +1678,7 @@ func run(c *core.Ctx) {
 				b = 3
 			}
 			c.Shape(w.name, profileNames[p], o.kind, o.root.name, o.relName, o.dest, o.fin, o.reuse, o.twice, o.dup, o.all, o.allCond != nil, o.findCond != nil, strings.Join(paths, "|"), b,
-				o.unscoped, o.pshape, distinctRows(o.parents) > 1)
+				o.unscoped, o.pshape, distinctRows(o.parents) > 1, o.sib != nil)
 			c.Inc("nontrivial_ops")
 			if c.WantSample() && i == 3 {
 				c.Sample(map[string]interface{}{"world": w.name, "profile": profileNames[p], "operation": desc, "parents": k.parents, "children_attached": k.attached, "tables": ds.dump()})
